@@ -38,3 +38,15 @@ Definition stored_after (n : nat) (es0 : list str) (qs : list str) : list str :=
 (* navigation spec: positions 0..|entries| where |entries| is the scratch line *)
 Definition nav_prev (c : nat) : nat := Nat.pred c.
 Definition nav_next (len c : nat) : nat := if Nat.ltb c len then S c else c.
+
+(* ---- navigation spec: an array of texts (one per stored entry + the scratch line) and a cursor.
+   Editing changes the text under the cursor; previous/next only move the cursor (clamped).
+   "Coming back to an entry shows the edited text" is built in: texts are never lost. *)
+Inductive nav_op := NEdit (s : str) | NPrev | NNext.
+Record nav := mkNav { nv_text : nat -> str; nv_cur : nat; nv_last : nat (* index of the scratch line *) }.
+Definition nav_step (n : nav) (o : nav_op) : nav :=
+  match o with
+  | NEdit s => mkNav (fun i => if Nat.eqb i (nv_cur n) then s else nv_text n i) (nv_cur n) (nv_last n)
+  | NPrev => mkNav (nv_text n) (Nat.pred (nv_cur n)) (nv_last n)
+  | NNext => mkNav (nv_text n) (if Nat.ltb (nv_cur n) (nv_last n) then S (nv_cur n) else nv_cur n) (nv_last n)
+  end.
